@@ -285,7 +285,7 @@ def check(case):
             if acc and not illegal:
                 labels.append('rejected-though-grammatical')
                 if case.get('well_formed'):
-                    return FAIL('rejected-well-formed:' + msg.split(':')[-1].strip()[:40], desc + '\nparse() rejected a text that is derivable from the grammar and declares its names: %s' % msg, labels)
+                    return FAIL('rejected-well-formed:' + ' '.join('N' if any(ch.isdigit() for ch in wd) else wd for wd in msg.split(':')[-1].split())[:40], desc + '\nparse() rejected a text that is derivable from the grammar and declares its names: %s' % msg, labels)
             return PASS(not first, labels)
         labels.append('accepted')
         if illegal or 'token recognition error' in cap.text:
